@@ -87,7 +87,7 @@ CHECKS = {
    design="5/C13"),
  "C08": dict(
    text="Three parts, all decided with the specification. Dispatch: 12 binding configurations of a called name (context function, global, both, context variable with/without a global, nothing, built-in, built-in shadowed / replaced, a name turning from function into variable mid-program) in the Eval machine vs its denotation, replayed on the real evaluator with marker handlers. Histories: every sequence of up to 3 (thorough 4) calls over {register h1, register h2, evaluate} for 9 registry cells (new names and built-in overrides of every operator kind; the first call of the process may be a registration) plus interleavings of two cells, each run in a fresh process and validated by TLC against the atomic engine (last writer wins, nothing before the built-in tables are complete). Tables: 28 user operators at precedences 1,2,3,109..111,119..121,199..201,10^9-1,10^9 x {left,right} registered together; all ordered pairs of them and of 7 built-in representatives in 6 shapes through the Pratt machine vs the reference grammar under that table, replayed in the real parser; random programs using them validated by TLC; and the binding-power arithmetic (2p, 2p+-1) is proved by TLAPS to order operators exactly by (precedence, associativity) for ALL naturals and to fit i32 up to 10^9.",
-   note="Equal precedence with different associativity is Unspecified (don't-care). Trusted: TLC, TLAPS back ends, hooks H1/H2, marker handlers.",
+   note="A chain that mixes left- and right-associative operators of one level is Unspecified (don't-care); its grouping may still not depend on the operands' shape. Trusted: TLC, TLAPS back ends, hooks H1/H2, marker handlers.",
    technique="TLA+ Eval dispatch + atomic Engine histories (trace validation) + Pratt machine under an extended operator table (TLC, replay) + TLAPS proof of the binding-power lemmas",
    design="5/C08"),
  "C16": dict(
@@ -114,12 +114,33 @@ m = {"version": 1,
      "engines": [{"name": "tlc", "path": "spec/", "serves_properties": sorted(CHECKS), "kind_free_text": "explicit TLA+/PlusCal specification checked with TLC; trace validation and replay through harness/ (Rust crate vh)"}],
      "checks": [], "not_applicable": [],
      "notes": "Every check: ./check <ID> (VERIF_TIER / --tier, VERIF_SEED). Exit 0 held, 1 VIOLATION, 2 tool error. Known findings: known-findings.txt."}
+# legs added after the first build (DESIGN 12.5 "later growth"); appended to the level text of the property they serve
+ADDED = {
+ "C01": " Later: directed run-time-fault inputs (argument-less built-ins, out-of-range shifts, DEL and control characters) head the totality record; edge integer literals in the spelling table.",
+ "C02": " Later: chains of four operators over one operator per precedence level in 3 shapes (five over every second level, thorough), `not` at each position of the triples, 20 decorations.",
+ "C03": " Later: a conditional family (unselected branch fails or assigns); the universes hold the neighbours of 2^32, integral values at scale 20/28, negative zero, multi-byte prefix strings and numeric-looking strings.",
+ "C05": " Later: a lexical-error token (`bad`) in the list and call alphabets of the Pratt machine; corruptions with non-engine blanks, an invalid token behind a closer, glued word operators; long literals with ill-formed tails.",
+ "C06": " Later: spec/ContextApi.tla (handles on shared stores, create_context!, set/get/value, execute through an alias): all 222 024 histories of <= 4 operations replayed, random histories validated by TLC; mismatches attributed to C06 or C08 by the last writer of the name.",
+ "C07": " Later: conditional ladders with a non-boolean rung, chains in which an operator application fails, a family in which one name occurs several times (called and bare), a callee rebound by its own argument.",
+ "C08": " Later: the reference grammar specifies a level holding both associativities per chain (only a chain that really mixes them is Unspecified); operand-shape independence on such levels (MixSource / TraceShape); user pairs parsed after a flipped-associativity registration history; ContextApi histories (function-entry class).",
+ "C09": " Later: Literal!LitVerdict counts significant digits (leading zeros do not count); negative zero among the small decimals.",
+ "C10": " Later: alphabets A5 (Unicode white space the engine treats as name characters, both quotes) and A6 with operator set OpsOdd (user operators ~ @@ U+2260 a~, DEL, backslash); long literals in the random inputs.",
+ "C11": " Later: tight layouts (white space dropped greedily where hook H1 reports the same tokens, and blindly with the Lexer specification deciding which variants are the same token sequence); the bare rendering of every specified tree must parse to that tree like its fully parenthesised twin; user-operator pairs (thorough).",
+ "C12": " Later: user-operator pairs rendered after a registration history (same names first registered with other precedences and flipped associativities, used once, replaced); decorations with nested conditionals; strings with backslash and control characters; string payloads decoded independently of expr().",
+ "C13": " Later: four hammer scenarios (single-registry programs; programs using several registries at once; program-order expectations across tables with long operator names; precedence+associativity re-registration with grouping witnesses) and 36 rendez-vous scenarios (a handler of each kind waits for another thread's engine call).",
+ "C14": " Later: `+` replaced by a user handler in the shapes environment; the outer evaluation also through execute(text) twice; directed deep re-entrancy probes (a hung probe is a deadlock).",
+ "C15": " Later: the dispatch configurations with faults; the depth-1 fault cases also through execute(text) on a second handle (a panic must reach the caller as an unwind there too).",
+ "C16": " Later: every program also from ONE reused line buffer through execute(); fixed parse probes after every case; a fresh thread's first call between runs with no re-registration; tokenizer history dependence (before/after a registration vs a fresh process).",
+ "C17": " Later: a float that is a whole number must convert exactly (Conv!FloatExact); edge floats at the integer types' boundaries.",
+ "C18": " Later: trees of several hundred levels (MCDescribe Deep); empty containers and an argument-less call; every second history also describes before and between the registrations.",
+}
+
 for p in props:
     if p in CHECKS:
         c = CHECKS[p]
         m["checks"].append({"property_id": p, "quick_cmd": "./check %s --tier quick" % p, "thorough_cmd": "./check %s --tier thorough" % p,
                             "evidence_file": "/verif/evidence/%s.json" % p, "replay_cmd_template": "./check %s --replay {path}" % p, "engine": "tlc",
-                            "level_claimed": {"category": "model_checking", "text": c["text"], "design_ref": c["design"]},
+                            "level_claimed": {"category": "model_checking", "text": c["text"] + ADDED.get(p, ""), "design_ref": c["design"]},
                             "level_note": c["note"], "technique": c["technique"]})
     else:
         m["not_applicable"].append({"property_id": p, "reason": NOT_YET})
